@@ -157,3 +157,24 @@ Proofs/GlencoeFacts.vos Proofs/GlencoeFacts.vok Proofs/GlencoeFacts.required_vos
 Props/C08.vo Props/C08.glob Props/C08.v.beautified Props/C08.required_vo: Props/C08.v Base/Result.vo Model/Ast.vo Model/FM.vo Model/PFM.vo Model/Sem.vo Format/Glencoe.vo Proofs/GlencoeFacts.vo
 Props/C08.vio: Props/C08.v Base/Result.vio Model/Ast.vio Model/FM.vio Model/PFM.vio Model/Sem.vio Format/Glencoe.vio Proofs/GlencoeFacts.vio
 Props/C08.vos Props/C08.vok Props/C08.required_vos: Props/C08.v Base/Result.vos Model/Ast.vos Model/FM.vos Model/PFM.vos Model/Sem.vos Format/Glencoe.vos Proofs/GlencoeFacts.vos
+Proofs/C17Facts.vo Proofs/C17Facts.glob Proofs/C17Facts.v.beautified Proofs/C17Facts.required_vo: Proofs/C17Facts.v Base/Result.vo Base/Str.vo Base/PyFloat.vo Base/AstOp.vo Gen/Tables_core.vo Model/Ast.vo Model/FM.vo Model/Ctc.vo Model/Queries.vo Model/Sem.vo Model/Ops.vo Model/EqHash.vo Gen/Tables_metrics.vo Model/Metrics.vo Proofs/FMFacts.vo Proofs/QueriesFacts.vo Proofs/C16Facts.vo Proofs/C18Facts.vo
+Proofs/C17Facts.vio: Proofs/C17Facts.v Base/Result.vio Base/Str.vio Base/PyFloat.vio Base/AstOp.vio Gen/Tables_core.vio Model/Ast.vio Model/FM.vio Model/Ctc.vio Model/Queries.vio Model/Sem.vio Model/Ops.vio Model/EqHash.vio Gen/Tables_metrics.vio Model/Metrics.vio Proofs/FMFacts.vio Proofs/QueriesFacts.vio Proofs/C16Facts.vio Proofs/C18Facts.vio
+Proofs/C17Facts.vos Proofs/C17Facts.vok Proofs/C17Facts.required_vos: Proofs/C17Facts.v Base/Result.vos Base/Str.vos Base/PyFloat.vos Base/AstOp.vos Gen/Tables_core.vos Model/Ast.vos Model/FM.vos Model/Ctc.vos Model/Queries.vos Model/Sem.vos Model/Ops.vos Model/EqHash.vos Gen/Tables_metrics.vos Model/Metrics.vos Proofs/FMFacts.vos Proofs/QueriesFacts.vos Proofs/C16Facts.vos Proofs/C18Facts.vos
+Props/C17.vo Props/C17.glob Props/C17.v.beautified Props/C17.required_vo: Props/C17.v Base/Result.vo Base/Str.vo Model/Ast.vo Model/FM.vo Model/Ctc.vo Model/Queries.vo Model/Ops.vo Model/Metrics.vo Gen/Tables_metrics.vo Proofs/C18Facts.vo Proofs/C17Facts.vo
+Props/C17.vio: Props/C17.v Base/Result.vio Base/Str.vio Model/Ast.vio Model/FM.vio Model/Ctc.vio Model/Queries.vio Model/Ops.vio Model/Metrics.vio Gen/Tables_metrics.vio Proofs/C18Facts.vio Proofs/C17Facts.vio
+Props/C17.vos Props/C17.vok Props/C17.required_vos: Props/C17.v Base/Result.vos Base/Str.vos Model/Ast.vos Model/FM.vos Model/Ctc.vos Model/Queries.vos Model/Ops.vos Model/Metrics.vos Gen/Tables_metrics.vos Proofs/C18Facts.vos Proofs/C17Facts.vos
+Proofs/C19Facts.vo Proofs/C19Facts.glob Proofs/C19Facts.v.beautified Proofs/C19Facts.required_vo: Proofs/C19Facts.v Base/Result.vo Base/Str.vo Base/PyFloat.vo Base/AstOp.vo Model/Ast.vo Model/FM.vo Model/Ctc.vo Model/Queries.vo Model/GenRandom.vo Proofs/FMFacts.vo Proofs/QueriesFacts.vo
+Proofs/C19Facts.vio: Proofs/C19Facts.v Base/Result.vio Base/Str.vio Base/PyFloat.vio Base/AstOp.vio Model/Ast.vio Model/FM.vio Model/Ctc.vio Model/Queries.vio Model/GenRandom.vio Proofs/FMFacts.vio Proofs/QueriesFacts.vio
+Proofs/C19Facts.vos Proofs/C19Facts.vok Proofs/C19Facts.required_vos: Proofs/C19Facts.v Base/Result.vos Base/Str.vos Base/PyFloat.vos Base/AstOp.vos Model/Ast.vos Model/FM.vos Model/Ctc.vos Model/Queries.vos Model/GenRandom.vos Proofs/FMFacts.vos Proofs/QueriesFacts.vos
+Props/C19.vo Props/C19.glob Props/C19.v.beautified Props/C19.required_vo: Props/C19.v Base/Result.vo Model/FM.vo Model/Queries.vo Model/Metrics.vo Model/GenRandom.vo Proofs/C17Facts.vo Proofs/C19Facts.vo
+Props/C19.vio: Props/C19.v Base/Result.vio Model/FM.vio Model/Queries.vio Model/Metrics.vio Model/GenRandom.vio Proofs/C17Facts.vio Proofs/C19Facts.vio
+Props/C19.vos Props/C19.vok Props/C19.required_vos: Props/C19.v Base/Result.vos Model/FM.vos Model/Queries.vos Model/Metrics.vos Model/GenRandom.vos Proofs/C17Facts.vos Proofs/C19Facts.vos
+Proofs/AfmFacts.vo Proofs/AfmFacts.glob Proofs/AfmFacts.v.beautified Proofs/AfmFacts.required_vo: Proofs/AfmFacts.v Base/Result.vo Base/Str.vo Base/AstOp.vo Model/Ast.vo Model/FM.vo Model/PFM.vo Model/Queries.vo Gen/Tables_afm.vo Format/Afm.vo Proofs/FMFacts.vo Proofs/QueriesFacts.vo Proofs/JsonFacts.vo
+Proofs/AfmFacts.vio: Proofs/AfmFacts.v Base/Result.vio Base/Str.vio Base/AstOp.vio Model/Ast.vio Model/FM.vio Model/PFM.vio Model/Queries.vio Gen/Tables_afm.vio Format/Afm.vio Proofs/FMFacts.vio Proofs/QueriesFacts.vio Proofs/JsonFacts.vio
+Proofs/AfmFacts.vos Proofs/AfmFacts.vok Proofs/AfmFacts.required_vos: Proofs/AfmFacts.v Base/Result.vos Base/Str.vos Base/AstOp.vos Model/Ast.vos Model/FM.vos Model/PFM.vos Model/Queries.vos Gen/Tables_afm.vos Format/Afm.vos Proofs/FMFacts.vos Proofs/QueriesFacts.vos Proofs/JsonFacts.vos
+Props/C06.vo Props/C06.glob Props/C06.v.beautified Props/C06.required_vo: Props/C06.v Base/Result.vo Model/Ast.vo Model/FM.vo Model/PFM.vo Format/Afm.vo Proofs/AfmFacts.vo
+Props/C06.vio: Props/C06.v Base/Result.vio Model/Ast.vio Model/FM.vio Model/PFM.vio Format/Afm.vio Proofs/AfmFacts.vio
+Props/C06.vos Props/C06.vok Props/C06.required_vos: Props/C06.v Base/Result.vos Model/Ast.vos Model/FM.vos Model/PFM.vos Format/Afm.vos Proofs/AfmFacts.vos
+Props/C12.vo Props/C12.glob Props/C12.v.beautified Props/C12.required_vo: Props/C12.v Base/Result.vo Model/FM.vo Format/Json.vo Format/Glencoe.vo Format/Xml.vo Format/Uvl.vo Format/Afm.vo Format/Export.vo
+Props/C12.vio: Props/C12.v Base/Result.vio Model/FM.vio Format/Json.vio Format/Glencoe.vio Format/Xml.vio Format/Uvl.vio Format/Afm.vio Format/Export.vio
+Props/C12.vos Props/C12.vok Props/C12.required_vos: Props/C12.v Base/Result.vos Model/FM.vos Format/Json.vos Format/Glencoe.vos Format/Xml.vos Format/Uvl.vos Format/Afm.vos Format/Export.vos
